@@ -8,7 +8,7 @@ one() {
   g=$(basename "$(dirname "$p")")
   case $g in
     B1) ids=C01,C08,C09;; B2) ids=C02,C03,C11,C12,C13;; B3) ids=C04,C05,C15,C16;; B4) ids=C06,C07,C17,C18;; B5) ids=C14,C19,C20;;
-    D1) ids=C01,C08,C09,C10;; D2) ids=C02,C03,C11,C12,C13,C10;; D3) ids=C04,C05,C15,C16,C10;; D4) ids=C06,C07,C17,C18,C10;; D5) ids=C14,C19,C20,C10;;
+    D1|E1) ids=C01,C08,C09,C10;; D2|E2) ids=C02,C03,C11,C12,C13,C10;; D3|E3) ids=C04,C05,C15,C16,C10;; D4|E4) ids=C06,C07,C17,C18,C10;; D5|E5) ids=C14,C19,C20,C10;;
   esac
   out=$(tools/mutant.sh "$p" "$ids" quick 2>&1)
   if echo "$out" | grep -q "PATCH DOES NOT APPLY"; then echo "$p: does not apply to the current tree (skipped)"; return; fi
